@@ -36,3 +36,11 @@ def _scaler_restart(plan, viol):
     scales them again (and calls the scaler on the scaled gradient)."""
     w = viol.get("witness", {})
     return plan.get("cfg", {}).get("scaler") is not None and int(w.get("segment", 0)) >= 1
+
+
+@disc("stopiteration_inside_fd_stencil")
+def _stopiter_fd(plan, viol):
+    """StopIteration raised by the objective while scipy's approx_derivative maps it over
+    the stencil points ends that map silently (scipy.optimize._numdiff)."""
+    w = viol.get("witness", {})
+    return w.get("exception") == "StopIteration" and w.get("actor") == "fun" and w.get("fd_mode") is True
